@@ -157,6 +157,35 @@ pub fn check_case(c: &Case) -> Check {
                 }
                 drop(pf);
             }
+            // the quantifier applied to a value the body reaches only through a fixed-point
+            // variable: lfp X # (f | exists V # X) = f | exists V f, gfp X # (f & forall V # X) =
+            // f & forall V f (X0=false, X1=f, X2=f|exists V f, stable; dually)
+            let list: Vec<String> = c.vars.iter().map(|v| format!("n{}", v)).collect();
+            if !list.is_empty() {
+                let want_l = ft.or(&want_ex);
+                let want_g = ft.and(&want_all);
+                for (text, want) in [
+                    (format!("lfp X # (({}) | (exists {} # X))", body, list.join(", ")), &want_l),
+                    (format!("gfp X # (({}) & (forall {} # X))", body, list.join(", ")), &want_g),
+                ] {
+                    let (r, pf) = front::eval_text(&text, None)
+                        .map_err(|e| viol(format!("`{}` rejected: {}", text, e), &cj))?;
+                    let got = front::table_by_name(&r, &names)
+                        .map_err(|e| viol(format!("`{}`: {}", text, e), &cj))?;
+                    if &got != want {
+                        return Err(viol(
+                            format!(
+                                "`{}` (a quantifier over the current value of a fixed point) evaluates to table {} but the oracle is {}",
+                                text,
+                                got.to_hex(),
+                                want.to_hex()
+                            ),
+                            &cj,
+                        ));
+                    }
+                    drop(pf);
+                }
+            }
         }
         Ok(())
     })
